@@ -1269,6 +1269,19 @@ def run_c06(ctx: fw.Ctx) -> None:
         name, ch = r.choice(string_contexts(v))
         cases.append(({"value": v, "context": name}, ch, r.choice(styles)))
     eval_ast_roundtrip(st3, cases)
+    st_e = ctx.stream("values whose TEXT looks like escape sequences (a literal backslash followed by what would be an escape), alone and next to real control characters")
+    cases = []
+    looks = ["\\x1b", "\\x00", "\\27", "\\0", "\\065", "\\n", "\\z ", "\\u{41}", "\\\\x1b", "\\\n", "\\\"", "\\'", "\\\\", "\\"]
+    ctrl = ["", "\x1b", "\x00", "\n", "1", "[0m", " "]
+    for a in looks:
+        for b_ in ctrl:
+            for c_ in ctrl[:4]:
+                v = c_ + a + b_
+                name, ch = string_contexts(v)[dh(v) % len(string_contexts(v))]
+                for sd in (None, "min"):
+                    cases.append(({"value": v, "context": name}, ch, sd))
+    eval_ast_roundtrip(st_e, cases)
+    st_e.exhaustive = True
     st5 = ctx.stream("long-bracket values with tempting beginnings, insides and ends x every context x default/minified")
     cases = []
     for v in bracket_values(not ctx.quick):
